@@ -797,6 +797,35 @@ def main():
                 if y.get("kind") in ("IntegerLiteral", "CharacterLiteral") and "value" in y:
                     keyboard_keys.append(int(y["value"])); break
     keyboard_keys = sorted(set(keyboard_keys))
+    # ------------------------------------------------------------------ descriptor life cycle of the listening socket
+    # open sites: X->socket = socket(...);  close sites: close(X->socket) / closesocket(..).  A close site is INVALIDATING when, later in
+    # the same function, the member is overwritten, or its holder (struct reb_server_data) is freed / the simulation's pointer to it reset:
+    # after an invalidating close no copy of the number survives, so the descriptor cannot be closed a second time.
+    sock_open, sock_close = [], []
+    for fn in sast["inner"]:
+        if fn.get("kind") != "FunctionDecl":
+            continue
+        fb = [x for x in fn.get("inner", []) if x.get("kind") == "CompoundStmt"]
+        if not fb:
+            continue
+        seq = list(walk(fb[0]))
+        for i, x in enumerate(seq):
+            if x.get("kind") == "BinaryOperator" and x.get("opcode") == "=":
+                l_ = strip(kids(x)[0]); r_ = strip(kids(x)[1])
+                if l_.get("kind") == "MemberExpr" and l_.get("name") == "socket" and r_.get("kind") == "CallExpr" and callee(r_) == "socket":
+                    sock_open.append(fn["name"])
+            if x.get("kind") == "CallExpr" and callee(x) in ("close", "closesocket") and len(kids(x)) > 1:
+                a_ = strip(kids(x)[1])
+                if a_.get("kind") == "MemberExpr" and a_.get("name") == "socket":
+                    inval = False
+                    for y in seq[i + 1:]:
+                        if y.get("kind") == "BinaryOperator" and y.get("opcode") == "=":
+                            l_ = strip(kids(y)[0])
+                            if l_.get("kind") == "MemberExpr" and l_.get("name") in ("socket", "server_data"):
+                                inval = True
+                        if y.get("kind") == "CallExpr" and callee(y) == "free" and len(kids(y)) > 1 and "struct reb_server_data *" in qt(strip(kids(y)[1])):
+                            inval = True
+                    sock_close.append((fn["name"], inval))
     # ------------------------------------------------------------------ the serializer must not write the simulation
     gbodies = LazyBodies()
     ser_eff, ser_ext = set(), set()
@@ -909,6 +938,9 @@ def main():
            "Definition ias15_reset_on_particle_change : list string := [%s]." % "; ".join(qs(x) for x in reset_callers),
            "Definition ias15_reset_N_allocated_values : list string := [%s]." % "; ".join(qs(x) for x in reset_stores),
            "Definition ias15_N3_values : list string := [%s]." % "; ".join(qs(v) for v in sorted(set(n3_values))),
+           "(* listening socket (member `socket` of struct reb_server_data): functions that open it; (function, invalidating?) for every close *)",
+           "Definition listening_socket_open_sites : list string := [%s]." % "; ".join(qs(x) for x in sock_open),
+           "Definition listening_socket_close_sites : list (string * bool) := [%s]." % "; ".join("(%s, %s)" % (qs(f), "true" if b else "false") for f, b in sock_close),
            "(* key codes with a case label in the /keyboard/ handler *)",
            "Definition keyboard_keys : list nat := [%s]." % "; ".join(str(k) for k in keyboard_keys),
            "(* places where the request loop closes a connection descriptor twice: fclose(fdopen(fd)) followed by close(fd) *)",
